@@ -36,9 +36,13 @@ def g_and(a, b):
             return a
         c = dict(a.cube)
         for k, v in b.cube.items():
-            if c.get(k, v) != v:
-                return None
-            c[k] = v
+            if k in c:
+                w = c[k] & v
+                if not w:
+                    return None
+                c[k] = w
+            else:
+                c[k] = v
         return G(z3.And(a.z, b.z), c)
     return G(z3.And(a.z, b.z), None)
 
@@ -52,7 +56,16 @@ def g_or(gs):
     for g in gs:
         if g.cube is not None and not g.cube:
             return TRUE
-    return G(z3.Or(*[g.z for g in gs]), None)
+    cube = None
+    if all(g.cube is not None and len(g.cube) == 1 for g in gs):
+        names = {next(iter(g.cube)) for g in gs}
+        if len(names) == 1:
+            n = names.pop()
+            u = frozenset()
+            for g in gs:
+                u = u | g.cube[n]
+            cube = {n: u}
+    return G(z3.Or(*[g.z for g in gs]), cube)
 
 
 class SymVal:
@@ -81,7 +94,7 @@ class Selector:
     def sym(self):
         if len(self.options) == 1:
             return self.options[0]
-        return SymVal([(G(self.var == i, {self.name: i}), o) for i, o in enumerate(self.options)])
+        return SymVal([(G(self.var == i, {self.name: frozenset([i])}), o) for i, o in enumerate(self.options)])
 
     def is_(self, i):
         return self.var == i
@@ -98,7 +111,7 @@ def lift(v, allowed=None):
             return v.alts
         out = []
         for g, x in v.alts:
-            if g.cube is not None and any(k in allowed and i not in allowed[k] for k, i in g.cube.items()):
+            if g.cube is not None and any(k in allowed and not (i & allowed[k]) for k, i in g.cube.items()):
                 continue
             out.append((g, x))
         return out
@@ -142,7 +155,13 @@ def sym_true_cond(v):
         names = {next(iter(c)) for c in cubes}
         if len(names) == 1:
             n = names.pop()
-            narrow = (n, {g.cube[n] for g in ts}, {g.cube[n] for g in fs})
+            tset = set()
+            fset = set()
+            for g in ts:
+                tset |= g.cube[n]
+            for g in fs:
+                fset |= g.cube[n]
+            narrow = (n, tset, fset)
     return cond, narrow
 
 
